@@ -210,14 +210,13 @@ def check_vector(kind, data, matrix, kw):
             compare_cells(cells, probs, want, side, out, what)
             if not close(s, scale):
                 out.append(('scale-transform', dict(what, found=s)))
-            dark = colors.parse(kw.get('dark', '#000'))
-            check_float_color(doc['color'], dark, out, what, 'stroke-colour')
+            check_float_color(doc['color'], spec_to_floats(kw.get('dark', '#000')), out, what, 'stroke-colour')
             light = kw.get('light')
             if light is not None:
                 if doc['bg'] is None:
                     out.append(('background-missing', what))
                 else:
-                    check_float_color(doc['bg'], colors.parse(light), out, what, 'background-colour')
+                    check_float_color(doc['bg'], spec_to_floats(light), out, what, 'background-colour')
             elif doc['bg'] is not None:
                 out.append(('background-unexpected', dict(what, bg=doc['bg'])))
         elif kind == 'pdf':
@@ -233,15 +232,14 @@ def check_vector(kind, data, matrix, kw):
             compare_cells(cells, probs, want, side, out, what)
             if not close(lw, scale):
                 out.append(('scale-transform', dict(what, found=lw)))
-            dark = colors.parse(kw.get('dark', '#000'))
-            check_float_color(doc['stroke'], dark, out, what, 'stroke-colour')
+            check_float_color(doc['stroke'], spec_to_floats(kw.get('dark', '#000')), out, what, 'stroke-colour')
             light = kw.get('light')
             if light is not None:
                 if doc['bg'] is None:
                     out.append(('background-missing', what))
                 else:
                     col, ((x0, y0), (x1, y1)) = doc['bg']
-                    check_float_color(col, colors.parse(light), out, what, 'background-colour')
+                    check_float_color(col, spec_to_floats(light), out, what, 'background-colour')
                     if min(x0, x1) > 1e-9 or min(y0, y1) > 1e-9 or max(x0, x1) < page * (1 - 1e-9) or max(y0, y1) < page * (1 - 1e-9):
                         out.append(('background-does-not-fill-page', dict(what, rect=((x0, y0), (x1, y1)), page=page)))
             elif doc['bg'] is not None:
@@ -269,11 +267,17 @@ def check_vector(kind, data, matrix, kw):
     return out
 
 
-def check_float_color(found, want_rgba, out, what, tag):
+def spec_to_floats(spec):
+    """EPS / PDF colour: (R, G, B) may mix ints 0..255 and floats 0.0..1.0 (documented for these two writers)."""
+    if isinstance(spec, tuple) and any(isinstance(c, float) for c in spec[:3]):
+        return tuple(c if isinstance(c, float) else c / 255.0 for c in spec[:3])
+    return float_color(colors.parse(spec))
+
+
+def check_float_color(found, want, out, what, tag):
     if found is None:
         out.append((tag, dict(what, found=None)))
         return
-    want = float_color(want_rgba)
     if any(abs(a - b) > 1e-5 for a, b in zip(found, want)):
         out.append((tag, dict(what, found=found, expected=want)))
 
